@@ -9,8 +9,10 @@ import (
 	"math"
 	"os"
 	"path/filepath"
+	"reflect"
 	"runtime"
 	"sort"
+	"strings"
 
 	"github.com/ctessum/geom"
 	"github.com/ctessum/geom/route"
@@ -57,24 +59,27 @@ type link struct {
 }
 
 type run struct {
-	bend       float64
-	intMode    int
-	pairFine   bool // the running pair may be interleaved between any two statements of package route
-	t          *tape.Tape
-	log        *core.Log
-	res        *core.Result
-	net        *route.Network
-	opt        route.MinimizeOption
-	g, gy      int      // lattice columns, rows
-	sx, sy     float64  // coordinate scales: X = sx*(col+1), Y = sy*(row+1)
-	pair       *sched.S // non-nil while two queries run interleaved
-	links      []link
-	pairs      map[[2]int]int
-	nodes      map[int]geom.Point // lattice idx -> first location seen (what the network stores)
-	perms      core.Hasher
-	permute    bool
-	states     map[uint64]struct{}
-	nontrivial bool
+	pairAcc                map[uintptr]*pairAccess
+	pairRace, pairRaceWhat string
+	pairAccesses           int64
+	bend                   float64
+	intMode                int
+	pairFine               bool // the running pair may be interleaved between any two statements of package route
+	t                      *tape.Tape
+	log                    *core.Log
+	res                    *core.Result
+	net                    *route.Network
+	opt                    route.MinimizeOption
+	g, gy                  int      // lattice columns, rows
+	sx, sy                 float64  // coordinate scales: X = sx*(col+1), Y = sy*(row+1)
+	pair                   *sched.S // non-nil while two queries run interleaved
+	links                  []link
+	pairs                  map[[2]int]int
+	nodes                  map[int]geom.Point // lattice idx -> first location seen (what the network stores)
+	perms                  core.Hasher
+	permute                bool
+	states                 map[uint64]struct{}
+	nontrivial             bool
 }
 
 func (e *engine) Run(t *tape.Tape, trace bool) core.Result {
@@ -92,6 +97,11 @@ func (e *engine) Run(t *tape.Tape, trace bool) core.Result {
 			r.pair.Yield("stmt", nil)
 		}
 	}
+	// shared-map accesses (announced by tools/hookfill): while two queries
+	// overlap nothing synchronises them, so a map both touch, one of them
+	// writing, is a data race
+	route.SimAccess = r.accessHook
+	defer func() { route.SimAccess = nil }()
 	defer func() { route.SimYield = nil }()
 	defer func() { route.SimOrder = nil }()
 	r.exec()
@@ -136,6 +146,85 @@ func (r *run) order(nodes []graph.Node) {
 	}
 	copy(nodes, tmp)
 	r.res.Fault("neighbour-order-permuted")
+}
+
+type pairAccess struct {
+	keep   interface{}
+	reads  map[int]string // task -> site of its last read
+	writes map[int]string
+}
+
+func (r *run) accessHook(p interface{}, write bool, site string) {
+	if r.pair == nil || r.pairRace != "" || r.pair.Aborted != "" {
+		return
+	}
+	v := reflect.ValueOf(p)
+	var key uintptr
+	switch v.Kind() {
+	case reflect.Map:
+		if v.IsNil() {
+			return
+		}
+		key = v.Pointer()
+	case reflect.Ptr:
+		if v.IsNil() {
+			return
+		}
+		if e := v.Elem(); e.Kind() == reflect.Map && !e.IsNil() {
+			key = e.Pointer()
+		} else {
+			key = v.Pointer()
+		}
+	default:
+		return
+	}
+	tid := r.pair.Cur().ID()
+	r.pairAccesses++
+	a, ok := r.pairAcc[key]
+	if !ok {
+		a = &pairAccess{keep: p, reads: map[int]string{}, writes: map[int]string{}}
+		r.pairAcc[key] = a
+	}
+	// the other task's conflicting access, if any (lowest task id first)
+	other, otherSite, otherWrite := -1, "", false
+	for u, st := range a.writes {
+		if u != tid && (other == -1 || u < other) {
+			other, otherSite, otherWrite = u, st, true
+		}
+	}
+	if write && other == -1 {
+		for u, st := range a.reads {
+			if u != tid && (other == -1 || u < other) {
+				other, otherSite, otherWrite = u, st, false
+			}
+		}
+	}
+	if other != -1 {
+		k := func(w bool) string {
+			if w {
+				return "write"
+			}
+			return "read"
+		}
+		what := site
+		if i := strings.LastIndexByte(what, ' '); i >= 0 {
+			what = what[i+1:]
+		}
+		if i := strings.IndexByte(what, '.'); i >= 0 {
+			what = what[i+1:]
+		}
+		if i := strings.IndexByte(what, '['); i >= 0 {
+			what = what[:i] + "[]"
+		}
+		r.pairRaceWhat = fmt.Sprintf("%s,%s-%s", what, k(otherWrite), k(write))
+		r.pairRace = fmt.Sprintf("%s at %s by query t%d and %s at %s by query t%d: two overlapping ShortestRoute calls touch the same map and nothing orders them (in a real execution these accesses can run at the same time)", k(otherWrite), otherSite, other, k(write), site, tid)
+		return
+	}
+	if write {
+		a.writes[tid] = site
+	} else {
+		a.reads[tid] = site
+	}
 }
 
 // orderHook is what route.SimOrder points to: it owns the map order and, while
@@ -572,6 +661,7 @@ func (r *run) query() {
 			r.res.Probe("fine-grained-pair(statement-level yields)")
 		}
 		r.pair = sc
+		r.pairAcc = map[uintptr]*pairAccess{}
 		q := [2][2]geom.Point{{from, to}, {from2, to2}}
 		for i := 0; i < 2; i++ {
 			i := i
@@ -605,6 +695,15 @@ func (r *run) query() {
 		r.res.Probe("interleaved-query-pair")
 		r.res.ProbeN("pair-handoffs", sc.Handoffs)
 		r.perms = r.perms.U64(sc.SchedHash())
+		r.pairAcc = nil
+		if r.pairAccesses > 0 {
+			r.res.ProbeN("pair-shared-map-accesses-checked", r.pairAccesses)
+			r.pairAccesses = 0
+		}
+		if r.pairRace != "" {
+			r.fail("data-race", r.pairRaceWhat, "%s", r.pairRace)
+			return
+		}
 		if ab != nil {
 			r.fail("pair-did-not-finish", ab.Why, "two interleaved ShortestRoute calls did not finish (%s): %s", ab.Why, sc.AbortDesc)
 			return
